@@ -2285,7 +2285,17 @@ impl<'a, E: quiver_core::effects::Effect> Compiler<'a, E> {
                     // to the matched value, so narrowing the provenance to `Ok` would collapse it to
                     // never. `compile_match` has already narrowed the provenance to the matched
                     // type, so dropping nil from that current type is the correct refinement.
-                    if !matches!(condition_prov, Provenance::Unknown) {
+                    //
+                    // When the condition ENDS in a match, the provenance reported for it is the
+                    // matched value, and "the condition is non-nil" says "the pattern matched" —
+                    // nothing about the matched value being non-nil: after `$.m =[] => …` the
+                    // field IS nil. Whatever the success of the pattern implies has been recorded
+                    // by `compile_match`; stripping nil on top of that is either a no-op or wrong.
+                    let condition_ends_in_match = branch.condition.chains.last().is_some_and(|c| {
+                        c.match_pattern.is_some()
+                            || matches!(c.terms.last(), Some(ast::Term::Match(_)))
+                    });
+                    if !matches!(condition_prov, Provenance::Unknown) && !condition_ends_in_match {
                         let current =
                             get_type_for_provenance(&self.scopes, &condition_prov, self.program);
                         let truthy_type = self.without_nil(current);
